@@ -92,21 +92,11 @@ let verdict case impl =
         | [] -> "diff two-reads empty plan although pick() yields a target"
         | h :: rest ->
           let pk1 = pick_matches dcf rackf g kss en1 co1 pol rq (Some h) in
-          let pm2 = plan_matches dcf rackf g kss en2 co2 pol rq in
           let g1 = int_of_nat (group_of dcf rackf g kss en1 co1 pol rq h)
           and g2 = int_of_nat (group_of dcf rackf g kss en2 co2 pol rq h) in
-          let rec inserts pre post = (List.rev_append pre (h :: post)) ::
-                                     (match post with [] -> [] | x :: r -> inserts (x :: pre) r) in
-          (* C05_two_reads_safe + C05_fallback_structure: the rest is the later fallback plan minus
-             the target EQUAL to the picked one.  The later plan's target for node h carries a shard
-             iff h is then in a replica group (g2 < 3), the picked target iff g1 < 3:
-             - h not allowed any more (g2 = 8): the rest is the later plan as it is, without h;
-             - same annotation: h's target was filtered out - the rest is the later plan minus h;
-             - different annotation: the filter does not apply - h reappears in the rest. *)
-          let structure = pk1 &&
-            (if g2 >= 8 then not (mem h rest) && pm2 rest
-             else if (g1 < 3) = (g2 < 3) then not (mem h rest) && List.exists pm2 (inserts [] rest)
-             else mem h rest && pm2 rest) in
+          (* the extracted acceptor: C05_two_reads_accept_sound (what ok means),
+             C05_two_reads_accepted (the model is accepted for every oracle) *)
+          let structure = two_reads_matches dcf rackf g kss en1 co1 en2 co2 pol rq (h :: rest) in
           if structure then "ok"
           else begin
             (* what must survive a liveness change: enabled when chosen, permitted, the rest duplicate-free,
